@@ -482,6 +482,12 @@ class ExecutionState:
         # Enqueue the wrapper object (operation_update can be None for empty checkpoints)
         self._checkpoint_queue.put(queued_op)
 
+        # The background thread may have failed between the check above and the put. It sets the
+        # failure event before it drains the queues, so either it still drains this operation or
+        # the failure is visible here - never neither (which would block a sync caller forever).
+        if self._checkpointing_failed.is_set():
+            self._checkpointing_failed.wait()
+
         # Conditionally wait for completion based on is_sync parameter
         if is_sync:
             logger.debug("Enqueued checkpoint operation for synchronous processing")
@@ -643,6 +649,10 @@ class ExecutionState:
                         "Checkpoint creation failed", e
                     )
 
+                    # Set the failure event first so checkpoint attempts racing with the drain below
+                    # fail immediately instead of enqueueing behind it
+                    self._checkpointing_failed.set(bg_error)
+
                     # FIFO: although at this point order not really import any anymore
                     # Signal completion events for the failed batch
                     for queued_op in batch:
@@ -666,9 +676,6 @@ class ExecutionState:
                                 item.completion_event.set(bg_error)
                         except queue.Empty:
                             break
-
-                    # Set the failure event so future checkpoint attempts fail immediately
-                    self._checkpointing_failed.set(bg_error)
 
                     # Exit the loop - error has been signaled to main thread via completion events
                     break
